@@ -3,6 +3,7 @@ C11 - results do not depend on core count, scheduling, series order or unrelated
 -/
 import PromqlVerif.Proofs.Den
 import PromqlVerif.Proofs.Grid
+import PromqlVerif.Proofs.CoalesceProof
 namespace PromqlVerif.C11
 open PromqlVerif Val
 
@@ -49,5 +50,35 @@ theorem unrelated_series_irrelevant_range (c : Ctx V) (extra : List (Series V)) 
     intro sr hsr
     simp [hno sr hsr]
   simp [this]
+
+/-- **the merge of the shards does not depend on the scheduler**: `coalesceOperator.Next` as it is
+written (`Coalesce.lean`: the first arrival creates the shared batch, every arrival appends under
+the lock) - for aligned children and any two orders in which their goroutines arrive, both runs
+succeed and their batches have, step by step, the same timestamp and the same samples up to
+order. -/
+theorem coalesce_arrival_order_irrelevant {V : Type} (ts : List Int) (hts : ts ≠ [])
+    (as as' : List (Nat × List (SV V))) (has : AlignedArrivals ts as) (hne : as ≠ []) (hp : as.Perm as') :
+    ∃ out out', coalesceNext (as.map fun a => (a.1, some a.2)) = .ok (some out) ∧
+      coalesceNext (as'.map fun a => (a.1, some a.2)) = .ok (some out') ∧
+      All2 (fun (x y : SV V) => x.1 = y.1 ∧ x.2.Perm y.2) out out' := by
+  have has' : AlignedArrivals ts as' := fun a ha => has a (hp.symm.subset ha)
+  have hne' : as' ≠ [] := by
+    intro h
+    rw [h] at hp
+    exact hne hp.eq_nil
+  exact ⟨_, _, coalesceNext_spec ts hts as has hne, coalesceNext_spec ts hts as' has' hne', mergedSpec_perm ts as as' hp⟩
+
+/-- the alignment is needed: with children whose batches differ in length the outcome depends on
+who arrives first (so the siblings of a plan must deliver the same steps - C18) -/
+theorem coalesce_needs_aligned_children :
+    ∃ (a b : Nat × Option (List (SV Int))),
+      (coalesceNext [a, b]).isOk = false ∧ (coalesceNext [b, a]).isOk = true :=
+  unaligned_children_depend_on_arrival
+
+/-- the hypotheses of `coalesce_arrival_order_irrelevant` are satisfiable -/
+example : AlignedArrivals [0, 60] ([(0, [(0, [(0, 1)]), (60, [])]), (1, [(0, []), (60, [(0, 2)])])] : List (Nat × List (SV Int))) := by
+  intro a ha
+  simp only [List.mem_cons, List.mem_nil_iff, or_false] at ha
+  rcases ha with rfl | rfl <;> rfl
 
 end PromqlVerif.C11
